@@ -116,6 +116,20 @@ pub fn dec_oracle(c: &Dec) -> Verdict {
                 Ok(b) => ensure!(b.to_parts() == d.to_parts(), "serde round trip of {} gives {}", cnt, count(b)),
                 Err(e) => return Verdict::Fail(format!("deserializing {:?} fails: {}", j, e)),
             }
+            // the other deserialization routes of the same JSON: an owned value, a reader, and the escaped spelling
+            match lib!(serde_json::from_value::<Duration>(serde_json::Value::String(want.clone()))) {
+                Ok(b) => ensure!(b.to_parts() == d.to_parts(), "from_value round trip of {} gives {}", cnt, count(b)),
+                Err(e) => return Verdict::Fail(format!("deserializing the JSON value {:?} fails: {}", want, e)),
+            }
+            match lib!(serde_json::from_reader::<_, Duration>(j.as_bytes())) {
+                Ok(b) => ensure!(b.to_parts() == d.to_parts(), "from_reader round trip of {} gives {}", cnt, count(b)),
+                Err(e) => return Verdict::Fail(format!("deserializing {:?} from a reader fails: {}", j, e)),
+            }
+            let escaped = j.replace('μ', "\\u03bc");
+            match lib!(serde_json::from_str::<Duration>(&escaped)) {
+                Ok(b) => ensure!(b.to_parts() == d.to_parts(), "escaped JSON {:?} gives {}", escaped, count(b)),
+                Err(e) => return Verdict::Fail(format!("deserializing the escaped JSON {:?} fails: {}", escaped, e)),
+            }
         }
         Err(e) => return Verdict::Fail(format!("serialization fails: {e}")),
     }
